@@ -6,6 +6,8 @@ package interp
 import (
 	"crypto/sha1"
 	"fmt"
+	"math"
+	"math/big"
 	"go/token"
 	"go/types"
 	"os"
@@ -346,6 +348,113 @@ func (ex *Exec) querySplit(extra *smt.Term, wantModel bool) smt.Result {
 		out.Solver = fmt.Sprintf("case-split x%d", leaves)
 	}
 	return out
+}
+
+// refineTrig makes a model replayable when sin/cos of symbolic angles were
+// abstracted to unit pairs: the variables occurring in the angle terms are
+// fixed to their model values, the pairs are pinned to the true sine/cosine of
+// the resulting concrete angles (±1e-9) and the query is solved again for the
+// remaining inputs; a few different angle assignments are tried.
+func (ex *Exec) refineTrig(extra *smt.Term, first smt.Result) smt.Result {
+	if len(ex.C.Trig) == 0 || first.Status != "sat" {
+		return first
+	}
+	c := ex.C
+	cur := first
+	var blocks []*smt.Term
+	for attempt := 0; attempt < 6; attempt++ {
+		env := map[string]*big.Rat{}
+		for k, v := range cur.Rat {
+			env[k] = v
+		}
+		// variables inside angle terms
+		vars := map[string]*smt.Term{}
+		var walk func(t *smt.Term)
+		seen := map[int]bool{}
+		walk = func(t *smt.Term) {
+			if seen[t.ID] {
+				return
+			}
+			seen[t.ID] = true
+			if t.Op == "var" {
+				vars[t.Name] = t
+			}
+			for _, a := range t.Args {
+				walk(a)
+			}
+		}
+		for _, tp := range c.Trig {
+			walk(tp.Angle)
+		}
+		var fix []*smt.Term
+		ok := true
+		for n, v := range vars {
+			val, has := env[n]
+			if !has || v.Sort == smt.Bool {
+				ok = false
+				break
+			}
+			// prefer a nearby float value (what the replay will use)
+			f, _ := val.Float64()
+			r := new(big.Rat)
+			if r.SetFloat64(f) == nil {
+				ok = false
+				break
+			}
+			if v.Sort == smt.Int {
+				r = val
+			}
+			env[n] = r
+			fix = append(fix, c.Eq(v, c.RatC(r, v.Sort)))
+		}
+		if !ok {
+			return first
+		}
+		cache := map[int]interface{}{}
+		for _, tp := range c.Trig {
+			av, good := smt.Eval(tp.Angle, env, map[string]bool{}, cache)
+			if !good {
+				return first // angle depends on something outside the model (e.g. a sqrt variable)
+			}
+			a, _ := av.(*big.Rat).Float64()
+			eps := 1e-9
+			sn, cs := math.Sin(a), math.Cos(a)
+			fix = append(fix,
+				c.Ge(tp.Sin, c.RealF(sn-eps)), c.Le(tp.Sin, c.RealF(sn+eps)),
+				c.Ge(tp.Cos, c.RealF(cs-eps)), c.Le(tp.Cos, c.RealF(cs+eps)))
+		}
+		q := c.And(append(append([]*smt.Term{}, fix...), blocks...)...)
+		if extra != nil {
+			q = c.And(q, extra)
+		}
+		r := ex.query(q, true, ex.QuickMs, ex.FullMs)
+		if r.Status == "sat" {
+			r.Secs += first.Secs
+			return r
+		}
+		// this angle assignment cannot be completed: exclude it and look for another model
+		var these []*smt.Term
+		for _, tp := range c.Trig {
+			if av, good := smt.Eval(tp.Angle, env, map[string]bool{}, cache); good {
+				// exclude this angle value (and a small neighbourhood) for this pair
+				a := av.(*big.Rat)
+				lo := new(big.Rat).Sub(a, big.NewRat(1, 100))
+				hi := new(big.Rat).Add(a, big.NewRat(1, 100))
+				these = append(these, c.And(c.Ge(tp.Angle, c.RatC(lo, smt.Real)), c.Le(tp.Angle, c.RatC(hi, smt.Real))))
+			}
+		}
+		blocks = append(blocks, c.Not(c.And(these...)))
+		q2 := c.And(blocks...)
+		if extra != nil {
+			q2 = c.And(q2, extra)
+		}
+		nx := ex.query(q2, true, ex.QuickMs, ex.FullMs)
+		if nx.Status != "sat" {
+			return first
+		}
+		cur = nx
+	}
+	return first
 }
 
 // feasible: is pc ∧ cond satisfiable? unknown counts as feasible.
@@ -972,6 +1081,7 @@ func (ex *Exec) flush() {
 		ob := pend[i].ob
 		neg := ex.C.Not(pend[i].cond)
 		r := ex.querySplit(neg, true)
+		r = ex.refineTrig(neg, r)
 		ob.Status, ob.Solver, ob.Secs, ob.Err = r.Status, r.Solver, r.Secs, r.Err
 		ob.Nodes = smt.Size(append(append([]*smt.Term{neg}, ex.pc...), ex.defs...)...)
 		if r.Status == "sat" {
